@@ -230,7 +230,15 @@ class SimpleLoop(Loop[World]):
                 self._current_world.process(dt)
 
             except SwitchWorld as ex:
-                self.switch(ex.world_handle, ex.clear_current, ex.clear_next)
+                # Entering a world releases its pending events, and one
+                # of those callbacks may ask for yet another switch
+                while ex is not None:
+                    try:
+                        self.switch(ex.world_handle, ex.clear_current,
+                                    ex.clear_next)
+                        ex = None
+                    except SwitchWorld as chained_ex:
+                        ex = chained_ex
 
     def switch(self, world_handle: Handle[World], clear_current=False,
                clear_next=False):
